@@ -20,12 +20,14 @@ def _unit(bounded, maxm):
         from lib.core import Undecided
         raise Undecided("extraction out of date: csd computation in create_index")
     region = fn_body[mi.start():]
+    region = X.canon(region, [(r"\bsize_type (\w+) = 0;", ["low"]), (r"\bsize_type (\w+) = csd;", ["high"])], log)
+    region = X.inline_temps(region, log)
     region = X.rewrite(region, [
         (r"^(?:size_type\s+)?csd\s*=", "size_t csd =", 1, "type-binding", "csd (local or cached member) bound to a local of the extracted function"),
         (r"\bsize_type\b", "size_t", 2, "type-binding", "ForestIndex::size_type -> size_t"),
         (r"EdgeIt ei, eiend;", "size_t ei, eiend;", 1, "container-api", "edge iterator = ordinal counter"),
         (r"boost::tie\(ei, eiend\) = boost::edges\(g\)", "ei = 0, eiend = m", 1, "container-api", "boost::edges(g) = ordinals 0..m"),
-        (r"auto e = \*ei;", "size_t e = ei;", 1, "container-api", "dereferencing the edge iterator yields the ordinal"),
+        (r"(?:const )?auto e = \*ei;", "size_t e = ei;", 1, "container-api", "dereferencing the edge iterator yields the ordinal"),
         (r"forest\.find\(e\) (==|!=) forest\.end\(\)", r"(F[e] \1 0)", 1, "container-api", "std::set<Edge> membership -> boolean array (find(e)==end() <=> F[e]==0)"),
         (r"\bindex\[", "index_[", 2, "container-api", "std::map<Edge,size_t> -> array keyed by ordinal ('index' is a libc name)"),
     ], log)
